@@ -84,9 +84,18 @@ def learn_prune_traces(rep, tier, seed):
             log.append(("rel", [int(nd.relevant) for nd in self.subgraph.nodes]))
             return rr
 
+        A, B, C, D = Xt.copy(), yt.copy(), Xv.copy(), yv.copy()
+        if i % 3 == 1:
+            # object history: the same object was already fitted on this very training set and has predicted other data
+            # (relevance flags, ordered lists and costs of that life may not leak into learn / prune)
+            meta["history"] = "fit(train) -> predict(train + noise)"
+            try:
+                m.fit(A.copy(), B.copy())
+                m.predict(np.vstack([A.copy(), A[::-1] + 0.3]))
+            except Exception:
+                pass
         g.opf_accuracy = acc_w
         SupervisedOPF.fit, SupervisedOPF.predict = fit_w, predict_w
-        A, B, C, D = Xt.copy(), yt.copy(), Xv.copy(), yv.copy()
         init = {"train": rowids(I, A, B), "val": rowids(I, C, D)}
         raised = 0
         np.random.seed(i)
